@@ -137,7 +137,7 @@ def run(ctx):
         for m in sorted(methods_of(prog, adt), key=lambda f: f.key):
             if not has_self_receiver(m) or m.impl_derived or m.name == "clear":
                 continue
-            grows = [w for w in all_writes(ctx, m) if w["root"] == SELF and w["how"] == "call" and w.get("name") in GROW and not w.get("via")]
+            grows = [w for w in all_writes(ctx, m) if w["root"] == SELF and w["how"] == "call" and w.get("name") in GROW and not w.get("via") and not is_drain(w)]
             if not grows:
                 continue
             ctx.analysed_fns.add(m.key)
@@ -149,7 +149,7 @@ def run(ctx):
                 facts = pe.path_facts(p)
                 evs = p.events
                 for i, e in enumerate(evs):
-                    if e["kind"] != "write" or e["root"] != SELF or e["how"] != "call" or e.get("name") not in GROW or e.get("via"):
+                    if e["kind"] != "write" or e["root"] != SELF or e["how"] != "call" or e.get("name") not in GROW or e.get("via") or is_drain(e):
                         continue
                     fld = self_field(e)
                     site = (fld, e["bb"])
@@ -183,6 +183,12 @@ def run(ctx):
     C09.run(RuleFilter(ctx, {"R09-prune", "R09-n"}))
 
 
+def is_drain(w):
+    """the event empties the container: drain(..), mem::take(&mut c), or being the SOURCE of `other.append(&mut c)`"""
+    nm = w.get("name")
+    return nm in ("drain", "take") or (nm == "append" and w.get("argi") == 1)
+
+
 def classify_growth(ctx, adt, m, fld, e, i, evs, facts, cf):
     """(kind, explanation) — kind None means unbounded"""
     selfp = ("param", 1, "self")
@@ -212,13 +218,13 @@ def classify_growth(ctx, adt, m, fld, e, i, evs, facts, cf):
         if a[0] == "field" and a[1][:2] == ("param", 1) and a[2] in cf and b[0] == "call" and b[1].endswith("len") and b[2] and b[2][0] == ("field", selfp, fld):
             return ("size check %s <= %s after the push" % (fmt(b), fmt(a)), "")
     for e2 in evs[i + 1:]:
-        if e2["kind"] == "write" and e2["root"] == SELF and self_field(e2) == fld and e2.get("name") == "drain":
+        if e2["kind"] == "write" and e2["root"] == SELF and self_field(e2) == fld and is_drain(e2):
             return ("drained by merge() when the backlog exceeds its limit", "")
         if e2["kind"] == "call" and e2["local"]:
             # a must-call of a function that drains the field whenever it is non-empty (its only non-draining
             # alternative is the early return on `is_empty()`, infeasible right after a push)
             alts = ctx.summ.alternatives(e2["callee"]) or []
-            drains = [a for a in alts if any(w.get("name") == "drain" and w["path"][-1:] == (fld,) for w in a[0])]
+            drains = [a for a in alts if any(is_drain(w) and w["path"][-1:] == (fld,) for w in a[0])]
             if drains and len(alts) - len(drains) <= 1:
                 return ("size check followed by %s(), which drains `%s`" % (e2["name"], fld), "")
     return (None, "no capacity guard against a configuration field, no removal on the same path, no draining size check")
